@@ -99,6 +99,22 @@ CHECKS['C01'] = dict(
          "rounding is not decided. Loop shapes outside the recognised decompositions yield exit 2, not a verdict.",
     tech="static analysis: symbolic constant folding of extracted expression trees (K-SYM), normalised term comparison of index arithmetic (K-SX), table agreement (K-TABLE)")
 
+CHECKS['C02'] = dict(
+    text="From the source of measure and its three evaluator sites, for every size/index/state: p1 accumulated as Σ|amp|² over exactly the "
+         "bit-set indices; one uniform [0,1) draw from the process RNG with outcome = (r < p1); per-pair collapse transformer extracted by "
+         "symbolic case evaluation equals amplitude/√p_outcome on the kept branch and 0 elsewhere; the returned bit is the collapse "
+         "outcome and is what the evaluator stores, returns and records.",
+    note=TB + "sympy trusted for simplification. Not decided: empirical frequencies (quality of mt19937/random_device), floating-point error.",
+    tech="static analysis: symbolic per-pair transformer extraction by cases (K-ABS over {bit, outcome} × K-SYM), def-use of the returned bit at the evaluator sites")
+CHECKS['C04'] = dict(
+    text="Necessary and jointly sufficient structural conditions for a statistics-preserving statevector reset, decided from reset's source: "
+         "subspace weights over the full range, outcome 1 exactly with the Born probability p1/(p0+p1) from one uniform draw and never an "
+         "empty branch (truth table over the sign atoms, comparison checked algebraically), per-outcome pair transformer = collapse + "
+         "renormalise + move to the bit-clear cell, bit-set cells zero on exit, and a single implementation reached from all three "
+         "evaluator paths.",
+    note=TB + "sympy trusted. The statistics themselves (averaging over the draw) are argued from these conditions, not sampled.",
+    tech="static analysis: symbolic per-pair transformer extraction (K-ABS × K-SYM), boolean truth table of the outcome formula, call-site coverage")
+
 NOT_YET = "check not yet built in this round (framework under construction; see DESIGN.md §4 for the planned static rules)"
 
 
